@@ -1,6 +1,6 @@
 from verif import Ob
 META = {'bounds': 'strings <= 3-5 bytes (all byte values, or the property alphabet), every single cut position as its own query, plus-decoding and invalid-encoding handling symbolic',
-        'outside': 'longer strings; more than one cut per query; the body/query-string content handlers wiring (htp_content_handlers.c)',
+        'outside': 'longer strings; more than one cut per query; the query-string content handler and the header-driven registration (htp_content_handlers.c; the body handler is handler.body_params)',
         'assumptions': ['bstr_builder and htp_table replaced by abstract flat models (table verified against it in C17)', 'fixed-capacity bstr_alloc'], 'trusted_base': ['builder_model.c', 'table_model.c', 'reference splitter in harness/urlenc/split.c']}
 U = ['htp_urlencoded.c', 'htp_util.c', 'bstr.c', 'htp_utf8_decoder.c']
 def ob(n, cut, decode, alpha, tier, timeout=900, mem_gb=10, cut2=None, realbb=False):
@@ -20,6 +20,8 @@ def obligations(tier):
     for cut in range(0, 4): obs.append(ob(4, cut, 0, True, 'quick'))
     obs.append(ob(4, 1, 0, False, 'quick', cut2=2)); obs.append(ob(4, 1, 0, False, 'quick', cut2=2, realbb=True, mem_gb=16))     # one field spread over three chunks
     obs += [o for o in __import__('C12').obligations(tier) if o.name.startswith('urldec.')]   # percent/plus decoding of each finished field
+    obs.append(Ob('handler.body_params', 'urlenc/handler.c', units=['htp_content_handlers.c', 'bstr.c'], models=['@libc_model.c', '@table_model.c', '@fixed_alloc.c'], remove=['bstr_alloc', 'bstr_expand'], defines={'TM_MAXP': 4}, unwind=6, tier='quick', timeout=300, mem_gb=4,
+                  statement='body handler: data forwarded untouched; at end of body the parser is finalised exactly once whatever its buffers hold, every pair becomes a body parameter in order, the table is handed over once', bounds='0..2 finished pairs plus an optional pending field, parser buffer state symbolic'))
     if tier == 'thorough':
         for cut in range(0, 4): obs.append(ob(4, cut, 0, False, 'thorough', 2400, 16))
         for cut in range(0, 5): obs.append(ob(5, cut, 1, True, 'thorough', 3000, 20))
